@@ -296,14 +296,16 @@ fn write_replay(dir: &str, a: &Args, fv: &FoundViolation, m: &minimise::Minimise
         ("events_tail", J::A(events)),
         ("replay", J::s("ivpsim replay <this file>  (or: /verif/check --replay <this file>)")),
     ]);
+    let solver = m.spec.instances.get(m.violation.inst as usize).map(|i| i.kind.name()).unwrap_or("x");
     let name = format!(
-        "C06{}-{}-{}-{}-{}-{}.json",
+        "C06{}-{}-{}-{}-{}-{}-{}.json",
         if cfg!(debug_assertions) { "-dbgassert" } else { "" },
         a.seed,
         stats::mode_name(fv.id.0),
         fv.id.1,
         fv.id.2,
-        m.violation.class
+        m.violation.class,
+        solver
     );
     let path = format!("{}/{}", dir.trim_end_matches('/'), name);
     std::fs::write(&path, j.to_string_pretty()).map_err(|e| e.to_string())?;
@@ -347,6 +349,17 @@ fn cmd_replay(a: &Args) -> i32 {
         }
     };
     let want = j.get("class").and_then(|x| x.as_str()).unwrap_or("").to_string();
+    // a replay of a run that does not terminate must itself terminate
+    {
+        let path2 = path.clone();
+        let want2 = want.clone();
+        std::thread::spawn(move || {
+            std::thread::sleep(std::time::Duration::from_millis(if want2 == "no-termination" { 30_000 } else { WATCHDOG_LIMIT_MS }));
+            println!("REPRODUCED class=no-termination instance=0: the run did not return");
+            println!("VIOLATION property=C06 replay={}", path2);
+            std::process::exit(if want2 == "no-termination" || want2.is_empty() { 1 } else { 3 });
+        });
+    }
     let res = run::execute(&spec, &budgets, &run::ExecOpts { record: true, keep_tail: 60, rec_polls: false, check_isolation: true, rec_items: false });
     if !a.terse {
         println!("replay of {}", path);
@@ -375,8 +388,55 @@ fn cmd_replay(a: &Args) -> i32 {
     }
 }
 
+/// A run that has not returned after this long is not going to (the longest legitimate run takes
+/// well under a second; the budgets of the stub bound everything that calls the derivative).
+const WATCHDOG_LIMIT_MS: u64 = 240_000;
+
+fn start_watchdog(a: &Args) {
+    let replays = a.replays.clone();
+    let seed = a.seed;
+    let tier = a.tier.clone();
+    std::thread::spawn(move || loop {
+        std::thread::sleep(std::time::Duration::from_millis(2_000));
+        let now = run::watch::now_ms();
+        for slot in run::watch::slots().iter() {
+            let st = slot.started_ms.load(std::sync::atomic::Ordering::Acquire);
+            if st != 0 && now.saturating_sub(st) > WATCHDOG_LIMIT_MS {
+                let fired = slot.fired.load(std::sync::atomic::Ordering::Relaxed);
+                let taken = slot.spec.lock().ok().and_then(|g| g.clone());
+                if let Some((spec, budgets)) = taken {
+                    let _ = std::fs::create_dir_all(&replays);
+                    let path = format!("{}/C06-{}-no-termination-{}.json", replays.trim_end_matches('/'), seed, st);
+                    let j = J::obj(vec![
+                        ("property", J::s("C06")),
+                        ("class", J::s("no-termination")),
+                        ("detail", J::s("this run did not return: some call into the crate loops without calling the derivative")),
+                        ("seed", J::U(seed)),
+                        ("tier", J::S(tier.clone())),
+                        ("found_with_build", J::s(if cfg!(debug_assertions) { "dbgassert" } else { "release" })),
+                        ("fault_had_fired", J::Bool(fired)),
+                        ("spec", spec.to_json()),
+                        ("budgets", run::budgets_to_json(&budgets)),
+                    ]);
+                    let _ = std::fs::write(&path, j.to_string_pretty());
+                    if fired {
+                        println!("violation class=no-termination : after the derivative had returned Err, a call into the solver did not return within {} s", WATCHDOG_LIMIT_MS / 1000);
+                        println!("  run: {}", spec.to_json().to_string_compact());
+                        println!("VIOLATION property=C06 replay={}", path);
+                        std::process::exit(1);
+                    } else {
+                        eprintln!("HARNESS-ERROR: a run in which no fault had fired did not return within {} s (outside C06; the exploration cannot continue); run written to {}", WATCHDOG_LIMIT_MS / 1000, path);
+                        std::process::exit(2);
+                    }
+                }
+            }
+        }
+    });
+}
+
 fn cmd_check(a: &Args) -> i32 {
     let t0 = std::time::Instant::now();
+    start_watchdog(a);
     let plan = plan_for(&a.tier, a.lite);
     let lite = a.lite;
     let seed = a.seed;
@@ -446,7 +506,7 @@ fn cmd_check(a: &Args) -> i32 {
         let units = explore_b::bexh_units(alphabet.len());
         let t = std::time::Instant::now();
         let (st, errs) = par(units.len(), workers, false, |i, st, errs| {
-            explore_b::run_bexh_unit(i as u64, &units[i], &alphabet, plan.maxlen, st, errs);
+            explore_b::run_bexh_unit(stats::MODE_BEXH, i as u64, &units[i], &alphabet, plan.maxlen, st, errs);
         });
         println!(
             "builder chains (<= {} calls, exhaustive): {} chains, {} builder calls, {} rejected, {} built, {} hook reads ({} clamped), {:.1}s",
@@ -457,12 +517,12 @@ fn cmd_check(a: &Args) -> i32 {
     }
     // 1b. builder half: the interacting setter pairs, deeper
     if enabled("bsub") && !lite {
-        for (name, sub, depth) in explore_b::sub_alphabets(plan.thorough) {
+        for (si, (name, sub, depth)) in explore_b::sub_alphabets(plan.thorough).into_iter().enumerate() {
             let units = explore_b::bsub_units(sub.len());
             let t = std::time::Instant::now();
             let before = total.chains;
             let (st, errs) = par(units.len(), workers, false, |i, st, errs| {
-                explore_b::run_bexh_unit(1_000_000 + i as u64, &units[i], &sub, depth, st, errs);
+                explore_b::run_bexh_unit(stats::MODE_BSUB, (si as u64 + 1) * 1_000_000 + i as u64, &units[i], &sub, depth, st, errs);
             });
             total.merge(st);
             harness.extend(errs);
@@ -480,6 +540,18 @@ fn cmd_check(a: &Args) -> i32 {
         total.merge(st);
         harness.extend(errs);
         println!("builder orders (5040 orders x 2 variants x 56 builders): {} chains, {:.1}s", total.chains - before, t.elapsed().as_secs_f64());
+    }
+    // 2b. builder half: the complete configuration minus every subset of its setters
+    if enabled("bmiss") {
+        let units = explore_b::bperm_units();
+        let t = std::time::Instant::now();
+        let before = total.chains;
+        let (st, errs) = par(units.len(), workers, false, |i, st, errs| {
+            explore_b::run_bmissing_unit(i as u64, &units[i], st, errs);
+        });
+        total.merge(st);
+        harness.extend(errs);
+        println!("builder missing-parameter subsets (3 orders x 127 subsets x {} builders): {} chains, {:.1}s", units.len(), total.chains - before, t.elapsed().as_secs_f64());
     }
     // 3. builder half: complete configuration with insertions
     if enabled("bins") {
@@ -564,8 +636,8 @@ fn cmd_check(a: &Args) -> i32 {
         let path = match write_replay(&a.replays, a, fv, &m) {
             Ok(p) => p,
             Err(e) => {
-                eprintln!("HARNESS-ERROR: cannot write replay file: {}", e);
-                return 2;
+                harness.push(format!("cannot write the replay file of violation {}: {}", msig, e));
+                continue;
             }
         };
         // replay in a fresh process; it must fail the same way
@@ -579,8 +651,12 @@ fn cmd_check(a: &Args) -> i32 {
             None => false,
         };
         if !ok {
-            eprintln!("HARNESS-ERROR: violation {} did not reproduce from its replay file {} in a fresh process", msig, path);
-            return 2;
+            // keep going: other signatures may well reproduce, and exit 2 must not hide them
+            harness.push(format!(
+                "violation {} did not reproduce from its replay file {} in a fresh process (does the code under test keep state between solver instances?)",
+                msig, path
+            ));
+            continue;
         }
         println!("violation class={} solver-signature={} : {}", m.violation.class, msig, m.violation.detail);
         println!("  minimised run: {}", m.spec.to_json().to_string_compact());
